@@ -2009,6 +2009,9 @@ class Tensor:
         self.data.shape = newshape
         self.data.shape = old_shape
 
+        # like any other in-place update, a shape assignment invalidates the gradient
+        self.null_grad()
+
         # create placeholders for self and all of its view-children
         graph = _dup.DuplicatingGraph(self)
         # need to iterate over all nodes now before we tinker
